@@ -514,4 +514,25 @@ theorem stuck_good {p : Params} {s : St} {ts : List Thr} (hW : 0 < p.W) (F : FIn
     exact hdz.2 (by omega)
 
 
+
+/-- When `ShutdownComplete` is at zero there is no dispatcher and the dispatch channel is empty: `Start`'s
+spawn never overwrites a live dispatcher or inherits channel content. -/
+theorem spawn_clean {p : Params} {s : St} (L : LInv p s) (hW : 0 < p.W) (hz : wg s = 0) :
+    s.disp = .none ∧ chanIds s = [] := by
+  have hall := all_exited_of_wg hz
+  have hdn : s.disp = .none := by
+    rcases L.wl with wl | wl
+    · have hne : s.workers ≠ [] := by intro e; rw [e] at wl; simp at wl; omega
+      obtain ⟨w, hw⟩ := List.exists_mem_of_ne_nil _ hne
+      have he := hall w hw
+      have hcl : s.closed = true := by
+        cases hc : s.closed with
+        | true => rfl
+        | false => have := L.d3 hc w hw; rw [he] at this; cases this
+      cases hd : s.disp with
+      | none => rfl
+      | _ => have := L.d1 (by simp [hd]); rw [hcl] at this; cases this
+    · exact wl.2.1
+  exact ⟨hdn, (chan_nil s).mpr (L.d5 (Or.inr hdn))⟩
+
 end Hive.WP
